@@ -691,3 +691,49 @@ def backward_slice(body, seeds, skip_call=None):
                         push(pl)
                         work.append(origin(body, pl)[0])
     return seen, sorted(calls_in.items()), reads
+
+
+def result_edges(body, value_locals):
+    """How a Result/Option value (locals derived from `value_locals`) is inspected: for every test of it returns
+    dict(bb, ok_edge, err_edge).  Recognised idioms: `.is_ok()` / `.is_err()` / `.is_some()` / `.is_none()` followed by
+    a boolean switch, and a `match` / `if let` on the value (discriminant switch with variants Ok/Err or Some/None)."""
+    der = derived_locals(body, list(value_locals))
+    out = []
+    for i, t in calls(body):
+        n = callee(t) or ""
+        pos = n.endswith(("::is_ok", "::is_some"))
+        neg = n.endswith(("::is_err", "::is_none"))
+        if not (pos or neg) or not t["a"]:
+            continue
+        pl = op_place(t["a"][0])
+        if not pl or pl[0] not in der:
+            continue
+        for sw in bool_switches(body, derived_locals(body, [t["d"][0]])):
+            out.append({"bb": sw.get("bb", i), "ok_edge": sw["true_edge"] if pos else sw["false_edge"],
+                        "err_edge": sw["false_edge"] if pos else sw["true_edge"]})
+    for j, blk in enumerate(body.blocks):
+        tt = blk["term"]
+        if blk.get("cleanup") or tt["k"] != "switch" or tt.get("x") == "desugar:QuestionMark":
+            continue
+        pl = op_place(tt["d"])
+        ds = defs(body).get(pl[0], []) if pl else []
+        if not (ds and ds[0][0] == "assign" and ds[0][2]["k"] == "discr"):
+            continue
+        src = ds[0][2]["p"]
+        if src[0] not in der and origin(body, src)[0] not in der:
+            continue
+        names = dict((v, nme) for v, nme in ds[0][2].get("variants", []))
+        e = {"bb": j, "ok_edge": None, "err_edge": None}
+        targets = {v: tb for v, tb in tt["ts"]}
+        other = tt.get("else")
+        for v, nme in names.items():
+            tb = targets.get(v, other)
+            if tb is None:
+                continue
+            if nme in ("Ok", "Some"):
+                e["ok_edge"] = (j, tb)
+            elif nme in ("Err", "None"):
+                e["err_edge"] = (j, tb)
+        if e["ok_edge"] and e["err_edge"] and e["ok_edge"] != e["err_edge"]:
+            out.append(e)
+    return out
